@@ -472,6 +472,9 @@ func (w *World) apply(m *myconn, s *Server, c *StmtCtx, id int64) *result {
 		if !s.StickyErr {
 			s.LastSQLErrno = 0
 		}
+		if s.RecurErr != 0 {
+			s.LastSQLErrno = s.RecurErr
+		}
 		return &result{}
 	case "stop_replica":
 		s.IORun, s.SQLRun = false, false
@@ -480,10 +483,17 @@ func (w *World) apply(m *myconn, s *Server, c *StmtCtx, id int64) *result {
 		if s.Source == "" {
 			return &result{errno: 1200, msg: "The server is not configured as replica"}
 		}
+		if s.startBroken {
+			s.startBroken = false
+			return &result{errno: 1872, msg: "Replica failed to initialize applier metadata structure from the repository"}
+		}
 		s.IORun, s.SQLRun = true, true
 		s.SSReg = s.SSSlave // M2
 		if !s.StickyErr {
 			s.LastIOErrno, s.LastSQLErrno = 0, 0
+		}
+		if s.RecurErr != 0 {
+			s.LastSQLErrno = s.RecurErr
 		}
 		return &result{}
 	case "reset_replica":
@@ -491,6 +501,7 @@ func (w *World) apply(m *myconn, s *Server, c *StmtCtx, id int64) *result {
 			return &result{errno: 3081, msg: "This operation cannot be performed with running replication threads"}
 		}
 		s.Source, s.IORun, s.SQLRun, s.LastIOErrno, s.LastSQLErrno, s.SSReg = "", false, false, 0, 0, false
+		s.startBroken = s.ResetBreaksStart
 		s.Retrieved = NewSet()
 		s.BacklogBytes = 0
 		return &result{}
